@@ -9,6 +9,7 @@ from typing import Dict, List, Optional, Set, Tuple
 
 from ..core import AnalysisError, RuleSpec
 from ..pymodel import call_name
+from .. import astq
 from . import c09
 
 EXPLANATION = (
@@ -42,12 +43,10 @@ def documented_kinds(ctx) -> Tuple[List[str], List[str]]:
 
 
 def dict_const(py, mod: str, name: str) -> Dict[str, str]:
-    for st in py.modules[mod].body:
-        if isinstance(st, ast.Assign) and any(isinstance(t, ast.Name) and t.id == name for t in st.targets) \
-                and isinstance(st.value, ast.Dict):
-            return {k.value: v.value for k, v in zip(st.value.keys, st.value.values)
-                    if isinstance(k, ast.Constant) and isinstance(v, ast.Constant)}
-    raise AnalysisError(f"{mod}.{name} not found")
+    v = py.const_value(mod, name)
+    if not isinstance(v, dict) or not v:
+        raise AnalysisError(f"{mod}.{name}: not a dictionary of constants (anchor vanished or built at run time)")
+    return {k: x for k, x in v.items() if isinstance(k, str) and isinstance(x, str)}
 
 
 def r1_kinds(ctx, rep):
@@ -93,54 +92,146 @@ def r1_kinds(ctx, rep):
     for k, v in sorted(st.items()):
         rep.ob(f"SUBLINK_TYPES[{k!r}] = {v!r} is an entity attribute", v in allattrs, "", "ford/sourceform.py")
     pf = py.func("Project.find")
-    ok = "except KeyError" in ast.unparse(pf) and "raise ValueError(f'Unknown class of entity" in ast.unparse(pf).replace('"', "'")
-    rep.ob("Project.find raises ValueError for an unknown kind", ok, "", py.nloc(pf))
     fc = py.func("FortranBase.find_child")
-    t = ast.unparse(fc).replace('"', "'")
-    ok = t.count("raise ValueError") == 2 and "SUBLINK_TYPES[entity.lower()]" in t
-    rep.ob("find_child raises ValueError for unknown / impossible kinds", ok, "", py.nloc(fc))
-    ok = "entity.lower()" in ast.unparse(pf) and "name.lower() == item.name.lower()" in ast.unparse(py.func("sourceform._find_in_list"))
-    rep.ob("kind qualifiers and names are compared case-insensitively", ok, "", py.nloc(pf))
+    fil = py.func("sourceform._find_in_list")
+
+    def unknown_kind_raises(fn, table: str) -> Tuple[bool, bool]:
+        """(an unknown key of `table` leads to `raise ValueError`, the key is lower-cased before the lookup)"""
+        par = astq.parents_of(fn)
+        raises, lowered = False, False
+        for n in ast.walk(fn):
+            if isinstance(n, ast.Subscript) and ast.unparse(n.value) == table and isinstance(n.ctx, ast.Load):
+                lowered |= any(isinstance(c, ast.Call) and isinstance(c.func, ast.Attribute) and c.func.attr in ("lower", "casefold")
+                               for c in ast.walk(n.slice))
+                t = astq.enclosing(n, par, ast.Try)
+                if t is not None:
+                    for h in t.handlers:
+                        if {"KeyError", "LookupError", "Exception"} & set(astq.handler_types(h)) and any(
+                                isinstance(r, ast.Raise) and r.exc is not None and "ValueError" in ast.unparse(r.exc)
+                                for r in ast.walk(h)):
+                            raises = True
+            # membership test form:  if kind not in TABLE: raise ValueError
+            if isinstance(n, ast.If) and any(isinstance(c, ast.Compare) and isinstance(c.ops[0], (ast.NotIn, ast.In))
+                                             and ast.unparse(c.comparators[0]) == table for c in ast.walk(n.test)):
+                if any(isinstance(r, ast.Raise) and r.exc is not None and "ValueError" in ast.unparse(r.exc) for r in ast.walk(n)):
+                    raises = True
+                    lowered |= ".lower()" in ast.unparse(n.test) or ".casefold()" in ast.unparse(n.test) or any(
+                        ".lower()" in ast.unparse(v) for _, v in astq.assignments(fn, ast.unparse(next(
+                            c.left for c in ast.walk(n.test) if isinstance(c, ast.Compare)))) if v is not None)
+        return raises, lowered
+
+    r1, l1 = unknown_kind_raises(pf, "LINK_TYPES")
+    rep.ob("Project.find raises ValueError for an unknown kind", r1, "" if r1 else
+           "an unknown kind qualifier is not turned into ValueError: convert_link's protected attempts do not catch it", py.nloc(pf))
+    r2, l2 = unknown_kind_raises(fc, "SUBLINK_TYPES")
+    has_attr_guard = any(isinstance(n, ast.If) and "hasattr(" in ast.unparse(n.test) and any(
+        isinstance(r, ast.Raise) and r.exc is not None and "ValueError" in ast.unparse(r.exc) for r in ast.walk(n)) for n in ast.walk(fc))
+    rep.ob("find_child raises ValueError for unknown / impossible kinds", r2 and has_attr_guard,
+           "" if r2 and has_attr_guard else "unknown item kind / an entity that cannot have that kind is not reported as ValueError",
+           py.nloc(fc))
+    cmp_ci = any(isinstance(c, ast.Compare) and len(c.ops) == 1 and isinstance(c.ops[0], ast.Eq)
+                 and all(isinstance(x, ast.Call) and isinstance(x.func, ast.Attribute) and x.func.attr in ("lower", "casefold")
+                         for x in (c.left, c.comparators[0])) for c in ast.walk(fil))
+    ok = l1 and l2 and cmp_ci
+    rep.ob("kind qualifiers and names are compared case-insensitively", ok, "" if ok else
+           f"case-sensitive comparison (LINK_TYPES key lowered: {l1}, SUBLINK_TYPES key lowered: {l2}, names compared lowered: {cmp_ci})",
+           py.nloc(pf))
 
 
 def r2_lookup_order(ctx, rep):
+    """Decided on the inlined, condition-annotated event trace of convert_link (helpers and closures it calls are
+    inlined), so the rule does not depend on how the lookup is split into functions or how its conditions are spelled."""
     py = ctx.py
     fn = py.func("FordLinkProcessor.convert_link")
-    t = ast.unparse(fn)
-    # protected attempts: each suppress/try block contains exactly one find_child call
-    blocks = [n for n in ast.walk(fn) if isinstance(n, ast.With) and "suppress(ValueError)" in ast.unparse(n.items[0])]
-    blocks += [n for n in ast.walk(fn) if isinstance(n, ast.Try) and any("ValueError" in ast.unparse(h.type or ast.Name(id="")) for h in n.handlers)
-               and not any(isinstance(x, ast.Raise) for h in n.handlers for x in ast.walk(h))]
-    if not blocks:
-        raise AnalysisError("convert_link: no protected find_child attempt found")
-    for b in blocks:
-        calls = [c for c in py.walk_calls(ast.Module(body=b.body, type_ignores=[])) if call_name(c).endswith(".find_child")]
-        ok = len(calls) <= 1
-        rep.ob(f"protected lookup block at line {b.lineno - fn.lineno}: one attempt per block", ok,
+    ev = astq.trace(fn, astq.class_method_resolver(py, "FordLinkProcessor", "_markdown"), max_depth=3)
+    idx = {id(e): i for i, e in enumerate(ev)}
+
+    def recv(e):
+        return e.text(e.node.func.value) if isinstance(e.node.func, ast.Attribute) else ""
+
+    fc = [e for e in ev if e.kind == "call" and isinstance(e.node.func, ast.Attribute) and e.node.func.attr == "find_child"]
+    pf = [e for e in ev if e.kind == "call" and isinstance(e.node.func, ast.Attribute) and e.node.func.attr == "find"
+          and "project" in recv(e)]
+    if not fc or not pf:
+        raise AnalysisError("convert_link: find_child / project.find calls not found")
+
+    def origin(name: str, before: int) -> str:
+        """text of the latest value assigned to `name` before event index `before` (resolving one alias step)"""
+        for e in reversed(ev[:before]):
+            if e.kind == "assign" and e.target == name and e.value is not None:
+                return e.text(e.value)
+        return name
+
+    child = [e for e in fc if any("child_name" in e.text(a) for a in e.node.args)]
+    scoped = [e for e in fc if e not in child]
+    own = [e for e in scoped if "current_context" in origin(recv(e), idx[id(e)]) or "current_context" in recv(e)]
+    par = [e for e in scoped if ".parent" in origin(recv(e), idx[id(e)]) or recv(e).endswith(".parent")]
+    if not own or not par:
+        raise AnalysisError(f"convert_link: scoped lookups not recognised (receivers: {[recv(e) for e in scoped]})")
+    # (a) every scoped attempt is individually protected against ValueError
+    blocks: Dict[int, List] = {}
+    for e in scoped:
+        sw = [p for p in e.protected if "ValueError" in p[1] or "Exception" in p[1]]
+        sw = [p for p in sw if p[0] == "suppress" or not any(isinstance(x, ast.Raise) for h in p[2].handlers for x in ast.walk(h))]
+        ok = bool(sw)
+        rep.ob(f"scoped lookup on `{recv(e)}` is allowed to fail", ok,
+               "a ValueError ('cannot have that kind') only abandons this attempt" if ok else
+               f"`{e.text()[:60]}` is not protected against ValueError: a kind the documented entity cannot contain aborts the "
+               f"conversion instead of falling through to the next scope", py.nloc(e.node))
+        for p in sw[-1:]:
+            blocks.setdefault((id(p[2]), p[3]), []).append(e)
+    for k, es in blocks.items():
+        ok = len(es) <= 1
+        rep.ob(f"protected lookup block at line {es[0].protected[-1][2].lineno - fn.lineno}: one attempt per block", ok,
                "a ValueError ('cannot have that kind') only abandons that one attempt" if ok else
-               f"{len(calls)} find_child attempts share one suppress(ValueError) block: when the documented entity "
+               f"{len(es)} find_child attempts share one protected block: when the documented entity "
                f"cannot contain the requested kind, the parent scope is skipped and the reference is resolved "
-               f"project-wide (or not at all)", py.nloc(b))
-    # order: context, then parent (guarded by item is None), then project (guarded by item is None)
-    ctx_i = t.find("item = find_child(context)")
-    par_i = t.find("item = find_child(parent)")
-    prj_i = t.find("item = self.project.find(**m.groupdict())")
-    ok = 0 <= ctx_i < par_i < prj_i
-    rep.ob("lookup order: own contents, parent's contents, whole project", ok, "", py.nloc(fn))
-    ok = "if item is None and (parent := context.parent) is not None" in t
-    rep.ob("parent is consulted only if the entity itself has no such child", ok, "", py.nloc(fn))
-    ok = re.search(r"if item is None:\s+item = self\.project\.find\(\*\*m\.groupdict\(\)\)", t) is not None
-    rep.ob("project-wide search only when the scoped lookups found nothing", ok, "", py.nloc(fn))
-    ok = "item = item.find_child(m['child_name'], m['child_entity'])" in t
-    rep.ob("child part is resolved on the item found, honouring its kind", ok, "", py.nloc(fn))
-    # not found: no href, warn
-    nf = [n for n in ast.walk(fn) if isinstance(n, ast.If) and ast.unparse(n.test) == "item is None" and
-          any(isinstance(x, ast.Return) for x in n.body)]
-    ok = bool(nf) and "warn(" in ast.unparse(nf[0]) and "link.text = name" in ast.unparse(nf[0]) and "href" not in ast.unparse(nf[0])
-    rep.ob("unknown target: plain text (no href) plus a warning", ok, "", py.nloc(nf[0]) if nf else py.nloc(fn))
-    ok = "rel_url = relpath(full_url, self.md.current_path)" in t and "full_url = self.md.base_url / item_url" in t
-    rep.ob("link is made relative to the page being converted", ok, "", py.nloc(fn))
-    ok = "item_url.startswith('http')" in t
+               f"project-wide (or not at all)", py.nloc(es[0].node))
+    # (b) order
+    i_own, i_par, i_prj = idx[id(own[0])], idx[id(par[0])], idx[id(pf[0])]
+    ok = i_own < i_par < i_prj
+    rep.ob("lookup order: own contents, parent's contents, whole project", ok,
+           "" if ok else "the lookups are attempted in a different order than documented", py.nloc(fn))
+    # result variable(s) of the scoped lookups and their aliases
+    res: Set[str] = set()
+    for e in ev:
+        if e.kind == "assign" and e.value is not None:
+            vt = e.text(e.value)
+            if any(c.node is x for c in scoped for x in ast.walk(e.value)) or vt in res or \
+                    (isinstance(e.value, ast.Call) and any(ev2.kind == "inline" and ev2.node is e.value for ev2 in ev)
+                     and any(idx[id(c)] < idx[id(e)] for c in scoped) and e.depth == 0):
+                res.add(e.target)
+    forced_none = lambda e: any(v in res and isnone for v, isnone in astq.implied_none_tests(e).items())  # noqa: E731
+    ok = forced_none(par[0])
+    rep.ob("parent is consulted only if the entity itself has no such child", ok,
+           f"parent lookup runs under {par[0].cond_texts()[-1:]}" if ok else
+           f"the parent's contents are searched even when the entity's own contents had a match (conditions: {par[0].cond_texts()})",
+           py.nloc(par[0].node))
+    ok = forced_none(pf[0])
+    rep.ob("project-wide search only when the scoped lookups found nothing", ok,
+           "" if ok else f"project.find runs under {pf[0].cond_texts()}: a project-wide match overrides the scoped one", py.nloc(pf[0].node))
+    # (e) child part
+    if not child:
+        rep.ob("child part is resolved on the item found, honouring its kind", False,
+               "no find_child call takes the child name: [[owner:item]] ignores the item part", py.nloc(fn))
+    for e in child[:1]:
+        args = [e.text(a) for a in e.node.args] + [e.text(k.value) for k in e.node.keywords]
+        ok = (recv(e) in res) and any("child_entity" in a for a in args)
+        rep.ob("child part is resolved on the item found, honouring its kind", ok,
+               "" if ok else f"`{e.text()}`: the item part is not looked up on the entity found with its kind qualifier", py.nloc(e.node))
+    # (f) nothing found: plain text plus a warning, no href
+    rets = [e for e in ev if e.kind == "return" and e.depth == 0 and forced_none(e)]
+    hrefs = [e for e in ev if e.kind == "assign" and e.target and "href" in e.target]
+    warns = [e for e in ev if e.kind == "call" and call_name(e.node).split(".")[-1] in ("warn", "warning")]
+    ok = bool(rets) and any(set(w.cond_texts()) >= set(rets[0].cond_texts()) for w in warns) and \
+        not any(set(h.cond_texts()) <= set(rets[0].cond_texts()) for h in hrefs)
+    rep.ob("unknown target: plain text (no href) plus a warning", ok, "", py.nloc(rets[0].node) if rets else py.nloc(fn))
+    # (g) the link is relative to the page being converted, external URLs stay absolute
+    rel = [e for e in ev if e.kind == "call" and call_name(e.node).split(".")[-1] in ("relpath", "relative_to")]
+    ok = any("current_path" in e.text() for e in rel) and any(
+        "base_url" in origin(e.text(e.node.args[0]), idx[id(e)]) or "base_url" in e.text() for e in rel if e.node.args)
+    rep.ob("link is made relative to the page being converted", ok, "", py.nloc(rel[0].node) if rel else py.nloc(fn))
+    ok = any(any("startswith('http" in c or "startswith(\"http" in c for c in e.cond_texts()) for e in rel)
     rep.ob("external URLs are kept absolute", ok, "", py.nloc(fn), nontrivial=False)
 
 
@@ -193,11 +284,26 @@ def r4_conversion_location(ctx, rep):
     if n < 5:
         raise AnalysisError(f"only {n} md.convert call sites found")
     cv = py.func("MetaMarkdown.convert")
-    t = ast.unparse(cv)
-    ok = "self.current_path = self.base_url / Path(url).parent.parent / 'non-existent dir'" in t and "self.current_path = path" in t
-    rep.ob("convert derives the virtual sibling directory from the entity URL", ok, "", py.nloc(cv))
+    asg = astq.assignments(cv, "self.current_path")
+    from_path = any(isinstance(v, ast.Name) and v.id == "path" for _, v in asg)
+    derived = [v for _, v in asg if astq.mentions(v, "self.base_url", cv) and any(
+        isinstance(c, ast.Call) and call_name(c).endswith("get_url") for e in astq.expand_locals(v, cv) for c in ast.walk(e))]
+    ok = from_path and bool(derived)
+    rep.ob("convert derives the virtual sibling directory from the entity URL", ok,
+           "path= is used when given, otherwise a location is derived from the context entity's URL below base_url" if ok else
+           "MetaMarkdown.convert no longer sets current_path from path= / the context entity's URL", py.nloc(cv))
+    cev = astq.trace(cv)
+    for attr in ("self.current_context", "self.current_path"):
+        ok = astq.assigned_on_every_path(cev, attr)
+        rep.ob(f"convert resets {attr} on every call", ok,
+               "assigned on every path" if ok else
+               f"{attr} keeps the value of the previous conversion on some path: text converted without a context/path (project "
+               f"summary, static pages) is linked relative to whatever was converted before", py.nloc(cv))
     rl = py.func("RelativeLinksTreeProcessor.run")
-    ok = re.search(r"if self\.md\.current_path is None:\s+return", ast.unparse(rl)) is not None
+    ev = astq.trace(rl)
+    first_ret = next((e for e in ev if e.kind == "return"), None)
+    ok = first_ret is not None and any(k.endswith("current_path") and v for k, v in astq.implied_none_tests(first_ret).items()) \
+        and not any(e.kind in ("call", "loop") for e in ev[:ev.index(first_ret)])
     rep.ob("relative-link post-processing is skipped without a location", ok, "", py.nloc(rl))
 
 
